@@ -244,6 +244,89 @@ fn collect_exprs(plan: &LogicalPlan, out: &mut Vec<Expr>) {
     });
 }
 
+/// does the plan contain an `EmptyRelation` that declares columns?  (logical_plan/mod.rs encodes only
+/// `produce_one_row`; the schema is dropped — finding C35-1)
+pub fn has_schemaful_empty_relation(plan: &LogicalPlan) -> bool {
+    use datafusion_common::tree_node::{TreeNode, TreeNodeRecursion};
+    let mut found = false;
+    let _ = plan.apply_with_subqueries(|p| {
+        if let LogicalPlan::EmptyRelation(e) = p {
+            if !e.schema.fields().is_empty() {
+                found = true;
+            }
+        }
+        Ok(TreeNodeRecursion::Continue)
+    });
+    found
+}
+
+/// why do the two textual forms differ?  Specific, stable causes get their own signature so that
+/// known findings never hide a different defect.
+fn text_diff_cause(before: &LogicalPlan, after: &LogicalPlan) -> &'static str {
+    use datafusion_common::tree_node::{TreeNode, TreeNodeRecursion};
+    let mut nary_union = false;
+    let mut any_union = false;
+    let _ = before.apply(|p| {
+        if let LogicalPlan::Union(u) = p {
+            any_union = true;
+            if u.inputs.len() > 2 {
+                nary_union = true;
+            }
+        }
+        Ok(TreeNodeRecursion::Continue)
+    });
+    let nb = format!("{}", before.display_indent());
+    let na = format!("{}", after.display_indent());
+    if nb != na {
+        // an n-ary Union is decoded as left-nested binary Unions
+        let flat = |s: &str| s.lines().map(|l| l.trim_start().to_string()).filter(|l| l != "Union").collect::<Vec<_>>();
+        if nary_union && flat(&nb) == flat(&na) {
+            return "union-renested";
+        }
+        // only the qualifiers of column references differ (`c0` vs `left.c0`) and the positional
+        // export (columns resolved to indices) is identical: not a difference the property forbids
+        if strip_qualifiers(&nb) == strip_qualifiers(&na) {
+            let (eb, ea) = (export_plan(before), export_plan(after));
+            if eb == ea {
+                return "qualifier-only";
+            }
+        }
+        return "text-differs";
+    }
+    let sb = format!("{}", before.display_indent_schema()).replace(";N", "");
+    let sa = format!("{}", after.display_indent_schema()).replace(";N", "");
+    if any_union && sb == sa {
+        // Union's schema is not encoded; it is recomputed from the inputs on decode
+        return "union-schema-recomputed";
+    }
+    "text-differs:schema"
+}
+
+/// drop `ident.` in front of an identifier (`left.c0` → `c0`)
+fn strip_qualifiers(s: &str) -> String {
+    let cs: Vec<char> = s.chars().collect();
+    let mut out = String::new();
+    let mut i = 0;
+    while i < cs.len() {
+        if cs[i].is_alphabetic() || cs[i] == '_' {
+            let mut j = i;
+            while j < cs.len() && (cs[j].is_alphanumeric() || cs[j] == '_') {
+                j += 1;
+            }
+            if j + 1 < cs.len() && cs[j] == '.' && (cs[j + 1].is_alphabetic() || cs[j + 1] == '_') {
+                i = j + 1; // skip the qualifier and the dot
+                continue;
+            }
+            out.extend(&cs[i..j]);
+            i = j;
+        } else {
+            out.push(cs[i]);
+            i += 1;
+        }
+    }
+    out
+}
+
 pub struct PlanCase {
     pub sql: String,
     pub variant: &'static str,
@@ -284,12 +367,17 @@ fn plans(run: &mut Run, rng: &mut Rng) {
     let n = run.budget(160, 4000);
     let mut ds = DataSet::generate(rng);
     let mut ds2 = DataSet::generate(rng);
-    for i in 0..n {
+    let corpus = ["SELECT t1.a FROM t1 WHERE false", "SELECT count(*) AS c0 FROM t2 WHERE 1 = 0", "SELECT t3.h FROM t3 ORDER BY 1 LIMIT 0"];
+    for i in 0..n + corpus.len() as u64 {
         if i % 8 == 0 {
             ds = DataSet::generate(rng);
             ds2 = DataSet::generate(rng);
         }
-        let q = Gen::new(rng).statement();
+        let q = if (i as usize) < corpus.len() {
+            crate::plangen::Query { sql: corpus[i as usize].to_string(), tys: vec![], ordered: false, tags: vec!["corpus"] }
+        } else {
+            Gen::new(rng).statement()
+        };
         let ctx = ds.fresh_ctx(DataSet::default_cfg());
         let plan0 = match rtm.block_on(ctx.state().create_logical_plan(&q.sql)) {
             Ok(p) => p,
@@ -332,10 +420,12 @@ fn plans(run: &mut Run, rng: &mut Rng) {
             let ctx2 = ds.fresh_ctx(DataSet::default_cfg());
             let codec2 = rtm.block_on(MemCodec::for_ctx(&ctx2, &ds));
             let task = ctx2.task_ctx();
+            let empty_rel = has_schemaful_empty_relation(&plan);
             let after = match hutil::catch(std::panic::AssertUnwindSafe(|| logical_plan_from_bytes_with_extension_codec(&bytes, &task, &codec2))) {
                 Ok(Ok(p)) => p,
                 Ok(Err(e)) => {
-                    run.oracle(false, &format!("decode-failed {sig_base}"), &format!("encoding succeeded ({} bytes) but decoding fails: {e}", bytes.len()));
+                    let kind = if empty_rel { "empty-relation-schema-dropped decode-failed" } else { "decode-failed" };
+                    run.oracle(false, &format!("{kind} {sig_base}"), &format!("encoding succeeded ({} bytes) but decoding fails: {e}", bytes.len()));
                     continue;
                 }
                 Err(p) => {
@@ -346,13 +436,28 @@ fn plans(run: &mut Run, rng: &mut Rng) {
             // oracle 1: same textual form (with schema)
             let tb = format!("{}", plan.display_indent_schema());
             let ta = format!("{}", after.display_indent_schema());
-            run.oracle(tb == ta, &format!("text-differs {sig_base}"), &format!("before:\\n{tb}\\nafter:\\n{ta}"));
-            // oracle 2: same rows / names / types / nullability
+            if empty_rel && tb != ta {
+                // one report under the specific signature; the plan's other oracles are skipped
+                run.count("empty_relation_schema_dropped");
+                run.oracle(false, &format!("empty-relation-schema-dropped {sig_base}"), &format!("before:\\n{tb}\\nafter:\\n{ta}"));
+                continue;
+            }
+            let cause = if tb == ta { "" } else { text_diff_cause(&plan, &after) };
+            run.oracle(tb == ta || cause == "qualifier-only", &format!("{cause} {sig_base}"), &format!("before:\\n{tb}\\nafter:\\n{ta}"));
+            if !cause.is_empty() {
+                run.count(&format!("cause:{cause}"));
+            }
+            // oracle 2: same rows / names / types / nullability (the nullability flags of a plan whose
+            // Union schema was recomputed are already reported above)
+            let level = if cause.starts_with("union-") { SchemaLevel::NamesTypes } else { SchemaLevel::Full };
             let ob = rtm.block_on(rt::run_logical(&ctx, &plan));
             let oa = rtm.block_on(rt::run_logical(&ctx2, &after));
-            match rt::same_outcome(&ob, &oa, q.ordered, SchemaLevel::Full) {
+            match rt::same_outcome(&ob, &oa, q.ordered, level) {
                 Ok(()) => run.oracle(true, "", ""),
-                Err((what, detail)) => run.oracle(false, &format!("result-differs:{what} {sig_base}"), &detail),
+                Err((what, detail)) => {
+                    let pre = if cause.starts_with("union-") { format!("{cause} ") } else { String::new() };
+                    run.oracle(false, &format!("{pre}result-differs:{what} {sig_base}"), &format!("{detail}\\nbefore:\\n{tb}\\nafter:\\n{ta}"))
+                }
             }
             if matches!(ob, rt::Outcome::Err(_)) {
                 run.count("exec_error");
